@@ -239,7 +239,12 @@ func (c *httpsCloner) putKV(kv dns.SVCBKeyValue) {
 // putIPs returns the underlying arrays of ips into c if possible.
 func (c *httpsCloner) putIPs(ips []net.IP) {
 	for _, ip := range ips {
-		if cap(ip) >= 16 {
+		// Only recycle arrays of exactly the pooled size, i.e. those handed
+		// out by appendIPs.  An IP with a larger capacity is a part of a
+		// bigger array, e.g. the single array that holds all hints of an
+		// unpacked message, and its first 16 bytes overlap with those of its
+		// neighbours, so that two later clones would share memory.
+		if cap(ip) == net.IPv6len {
 			c.ip.Put((*[16]byte)(ip[:16]))
 		}
 	}
